@@ -409,6 +409,10 @@ def run(chk, repo, tier):
     chk.not_decided[:] = nd2
     chk.not_decided += ['absolute complex field values', 'placement errors applied symmetrically to both axes '
                         'that also preserve every extent identity']
+    # the input-plane field is the plane's amplitude inside the support of its mask: a mask that keeps negative or fractional
+    # samples as they are enters the field as a second amplitude factor
+    from .extra_rules import mask_support_rule as _mask_support_rule
+    _mask_support_rule(chk, repo, 'C02-p')
     alpha_rule(chk, repo, 'C02-a')
     contracts(chk, repo, 'C02-b', 'C02-d', 'C02-e', 'C02-i')
     from .c04 import tilt_chain
